@@ -530,6 +530,9 @@ def run(ctx):
         ctx.ob('C10.model-never-fetched', 'plan_join_tables:process_table', ok,
                'plan_join_tables calls process_table (which builds a fetch from an integration) on a path where the item may be a model',
                file=PJ, line=c.lineno)
+    for label, ok, msg, line in nested_select_table(ctx):
+        ctx.ob('C10.nested-select-routing', label, ok, msg, file=QP, line=line,
+               witness='select * from int1.orders where customer_id in (select c.id from int1.customers c join int2.blacklist b on c.id = b.id)')
     for label, ok, msg, line in select_route_table(ctx):
         ctx.ob('C10.model-never-fetched', f'plan_select_identifier:{label}', ok, msg, file=QP, line=line,
                witness='with a as (select * from int1.t), b as (select * from a join mindsdb.pred) select * from a')
@@ -615,6 +618,40 @@ def model_resolution_table(ctx):
                     f'[{label}] get_predictor answers {got}, expected {want}: a name is a model exactly when its qualifier (the default namespace for a bare name) plus '
                     f'name is in the model catalog, the version suffix is kept, names of tables inside a database (database.schema.table) are tables, and the catalog is '
                     f'not modified', gp.lineno))
+    return out
+
+
+def nested_select_table(ctx):
+    """The callback of get_nested_selects_plan_fnc, interpreted on the classification of a nested select: it may stay inside the query that is sent to
+    <main integration> only when it reads nothing but tables of that integration; otherwise it is planned on its own and replaced by its result.
+    -> [(label, ok, message, line)]"""
+    import itertools
+    from ..interp import Interp, Obj, Raised, Env
+    qp = class_named(ctx.src.tree(QP), 'QueryPlanner')
+    gn = function_named(qp, 'get_nested_selects_plan_fnc')
+    ctx.need(gn is not None, 'get_nested_selects_plan_fnc not found')
+    out = []
+    for ints, entities, force in itertools.product((('int1',), ('int1', 'int2'), ('int2',), ()), (0, 1), (False, True)):
+        planned = []
+        node = Obj('Select', parentheses=True, alias=None, _nested=True)
+        planner = Obj('QueryPlanner')
+        stubs = {'self.get_query_info': lambda it, q: {'integrations': set(ints), 'mdb_entities': [Obj('Identifier')] * entities, 'predictors': [], 'user_functions': []},
+                 'self.plan_select': lambda it, q, **k: (planned.append(q), Obj('Step', result=Obj('Result')))[1],
+                 'Parameter': lambda it, v: Obj('Parameter', value=v)}
+        it = Interp.for_file(ctx.src, QP, {'Select': set()}, stubs)
+        label = f'nested select over {sorted(ints) or "no integration"}{", MindsDB objects" if entities else ""}{", forced" if force else ""} inside a query for int1'
+        try:
+            cb = it.call_function(gn, [planner, 'int1'], {'force': force}, Env())
+            res = cb(node, is_table=False, is_target=False, parent_query=None, callstack=[])
+        except Raised as r:
+            out.append((label, False, f'[{label}] raises {r.exc_name}', gn.lineno))
+            continue
+        separately = bool(planned) and isinstance(res, Obj) and res.kind == 'Parameter'
+        stays = res is None and not planned
+        want_separately = force or set(ints) != {'int1'} or bool(entities)
+        out.append((label, separately if want_separately else stays,
+                    f'[{label}] the nested select {"is planned on its own" if separately else ("stays inside the query sent to int1" if stays else "is handled inconsistently")}: '
+                    f'it may stay only when it reads tables of int1 and nothing else - a table of another integration inside it is not in int1', gn.lineno))
     return out
 
 
